@@ -57,3 +57,9 @@ CLAIMS["C16"] = (
     "pathlib's parser (parts / is_absolute as functions of the string) is an assumed contract; _sanitize_archive_arcname (write/writeall path) is covered where listed in the evidence, else excluded.",
     "DESIGN.md 7 (C16)",
 )
+
+CLAIMS["C10"] = (
+    "Listing functions as folds over the member list, proved for archives of any size: namelist/getnames return filename(member k) at position k; getinfo returns the first member whose name equals the query minus one trailing slash and raises KeyError exactly when no member has it; list() builds exactly one FileInfo per member, in order, from that member's own name and from the same uncompressed/crc32/is_directory fields that extraction enforces (C04/C09); needs_password() reports the flag computed by the header reader.",
+    "Abstract mode (opaque ArchiveFile objects with stable attributes). archiveinfo()/get_methods_names are not under contract yet where absent from the evidence; known findings about them are listed in known_findings.json.",
+    "DESIGN.md 7 (C10)",
+)
